@@ -452,6 +452,62 @@ def run(F, rep):
                    site=site_of(f, t), key=okey)
     rep.floor("C04-D10", ntls, 1, "uses of thread_local keys in the compression path (the ZSTD compression context)")
 
+    # ------------------------------------------------------------ D11: synchronisation rounds start at points the input determines
+    # Which contigs share a round decides group ids and in-group order.  A round is started by queueing tokens (or by calling
+    # something that does); no condition on the way to such a start may look at what the workers have done so far: the
+    # state of the queue (any observer of MemoryBoundedQueue), an atomic the workers update, a clock.
+    from rules import c05 as c05m
+    _w11 = F.funcs.get(pipeline.CORE + "worker_thread")
+    _tag11 = c05m.token_tag_fields(F, _w11) if _w11 else None
+    tag11 = sorted(_tag11[0])[0] if _tag11 and len(_tag11[0]) == 1 else "is_sync_token"
+    QN = "ragc_core::memory_bounded_queue::MemoryBoundedQueue::<T>::"
+    starters = set()          # functions that queue tokens themselves
+    start_sites = []          # (function, block, what)
+    for k, f in F.funcs.items():
+        if f.crate not in ("ragc_core", "ragc") or "legacy" in k:
+            continue
+        exs = None
+        for bi, t in f.calls():
+            if t.get("indirect") or not t["callee"].startswith(QN) or not re.search(r"::push\w*$", t["callee"]) or len(t["args"]) < 2:
+                continue
+            exs = exs or Exprs(f)
+            item = exs.operand(t["args"][1])
+            if isinstance(item, tuple) and item[0] == "var":
+                from mirutil import _single_source
+                item = _single_source(f, exs, item[1])
+            if isinstance(item, tuple) and item[0] == "agg" and dict(item[2]).get(tag11) == ("const", 1):
+                starters.add(k)
+                start_sites.append((f, bi, "tokens queued"))
+    reach_start = {k for k, v in G.transitive(lambda k: k in starters).items() if v} | starters
+    for k, f in F.funcs.items():
+        if f.crate not in ("ragc_core", "ragc") or "legacy" in k or f.d.get("test"):
+            continue
+        if k not in reach and not k.startswith("ragc::"):
+            continue
+        for bi, t in f.calls():
+            if not t.get("indirect") and t["callee"] in reach_start and t["callee"] != k and t["callee"].startswith(pipeline.SQC) and k not in starters:
+                start_sites.append((f, bi, "call of %s" % t["callee"].rsplit("::", 1)[-1]))
+            elif not t.get("indirect") and t["callee"] in starters and t["callee"] != k:
+                start_sites.append((f, bi, "call of %s" % t["callee"].rsplit("::", 1)[-1]))
+    SCHED = re.compile(r"memory_bounded_queue::MemoryBoundedQueue::<T>::(?!push\b|new\b|clone\b)\w+$|sync::atomic::Atomic\w+::(load|fetch_\w+|swap|compare_exchange\w*)$|time::Instant::(now|elapsed)$|thread::current$|available_parallelism$")
+    n11 = 0
+    seen11 = set()
+    for f, bi, what in start_sites:
+        if (f.key, bi) in seen11:
+            continue
+        seen11.add((f.key, bi))
+        n11 += 1
+        ex11 = Exprs(f)
+        bad = []
+        for c in dominating_conds(f, bi, ex11):
+            for x in walk(strip_tags(c[0])):
+                if isinstance(x, tuple) and x[0] == "call" and SCHED.search(x[1]):
+                    bad.append(x[1].split("::", 2)[-1][-50:])
+        rep.ob("C04-D11", "round start in %s (%s) depends only on the input seen so far" % (f.key.split("::", 1)[-1], what), not bad,
+               detail=("a condition on the way reads %s: how far the workers have got decides where the round boundary falls" % sorted(set(bad))) if bad else "no queue observer, atomic or clock in the dominating conditions",
+               site=site_of(f, f.blocks[bi]["term"]), key="C04-D11 | %s | %s" % (f.key, what))
+    rep.floor("C04-D11", n11, 4, "places where a synchronisation round is started")
+
     # ------------------------------------------------------------ D6
     ntok = 0
     # the field that marks a token is the one the worker's token test reads (found in the worker, not by its name)
